@@ -140,7 +140,7 @@ def values_for(entity, attribute):  # noqa: C901  pylint: disable=too-many-branc
     if a == "ga_version":
         return ["4.2", "5.0-é"]
     if a == "version":
-        return [2.2, 3.0]
+        return [2.2, 3.0, 3]
     if a == "contributors":
         return [["alice"], ["bob", "é"]]
     if a == "planning":
@@ -188,9 +188,9 @@ def values_for(entity, attribute):  # noqa: C901  pylint: disable=too-many-branc
     if a in ("origin", "collar"):
         return [[5.0, 6.0, 7.0], np.array([-1.5, 0.0, 2.25])]
     if a == "rotation":
-        return [45.0, -12.5]
+        return [45.0, -12.5, 30]
     if a == "dip":
-        return [35.0, 62.5]
+        return [35.0, 62.5, 10]
     if a in ("u_count", "v_count", "w_count"):
         if _is(entity, "Octree"):
             return [int(cur or 1) * 2, int(cur or 1) * 4]
@@ -219,9 +219,9 @@ def values_for(entity, attribute):  # noqa: C901  pylint: disable=too-many-branc
     if a == "surveys":
         return [np.array([[0.0, 0.0, -90.0]]), np.array([[0.0, 10.0, -85.0], [25.0, 20.0, -80.0], [60.0, 30.0, -70.5]])]
     if a == "cost":
-        return [99.5, 7]
+        return [99.5, 7, np.float32(0.25)]
     if a == "end_of_hole":
-        return [150.0, 75, None]
+        return [133.25, 75, None]
     if a == "default_collocation_distance":
         return [0.5, 2.0]
     if a == "current_line_id":
@@ -249,8 +249,20 @@ def values_for(entity, attribute):  # noqa: C901  pylint: disable=too-many-branc
     if a == "number_of_bins":
         return [(int(cur) if cur else 8) + 5, np.int32(32), None]
     if a == "color_map":
-        arr = np.array([[0.0, 10, 20, 30, 255], [2.5, 40, 50, 60, 128]])
-        return [arr, {"values": arr[::-1].copy() * np.array([2.0, 1, 1, 1, 1]), "name": "other.TBL"}, None]
+        from geoh5py.data.color_map import ColorMap
+
+        rows = len(cur) if cur is not None and len(cur) else 3  # rows of the stored colour map
+        same = np.array([[0.25 * k, (40 * k) % 256, (200 - 30 * k) % 256, (17 * k) % 256, 255] for k in range(rows)], dtype=float)
+        other = np.array([[0.5 * k, (25 * k) % 256, (90 + 20 * k) % 256, (250 - 40 * k) % 256, 128] for k in range(rows + 1)], dtype=float)
+        named = ColorMap(values=same[::-1].copy() * np.array([-1.0, 1, 1, 1, 1]))
+        named._name = "third.TBL"  # pylint: disable=protected-access  (the public name setter needs a parent)
+        return [
+            other,  # another number of rows, default name
+            {"values": same, "name": "second.TBL"},  # SAME number of rows as the stored map, another name
+            {"values": other[::-1].copy() * np.array([-1.0, 1, 1, 1, 1]), "name": "other.TBL"},
+            named,  # a ColorMap object, same number of rows, its own name
+            None,
+        ]
     if a == "value_map":
         from geoh5py.data import ReferenceValueMap
 
